@@ -230,3 +230,72 @@ def repeat_alias_rule(ctx, rep: Report, clause: str, modules):
     if n == 0:
         rep.ob('ALIAS-repeat', f'no comprehension in {", ".join(sorted(m.split(".")[-1] for m in modules))} repeats one '
                f'mutable object', '', True, 'every position gets its own object', False, clause)
+
+
+def value_preserving_rule(ctx, rep: Report, clause: str, modules=None):
+    """no hidden precision: numbers travel through the package at full precision and are rounded only where the
+    caller's `precision` says so.  Flags (a) round(x, <literal digits>), (b) a call that passes a numeric literal as
+    precision=, (c) an f-string format spec on a computed value -- each silently fixes the number of digits of a mass
+    or count that is later compared with, or parsed back into, the unrounded one"""
+    import ast as _ast
+    from ..loader import walk_own as _walk
+    program = ctx.program
+    n = 0
+    bad = []
+    for f in program.all_functions():
+        if modules is not None and f.module.name not in modules:
+            continue
+        for x in _walk(f.node):
+            n += 1
+            if isinstance(x, _ast.Call) and isinstance(x.func, _ast.Name) and x.func.id == 'round' and len(x.args) == 2 and \
+                    isinstance(x.args[1], _ast.Constant) and isinstance(x.args[1].value, int) and \
+                    not isinstance(x.args[1].value, bool):
+                bad.append((f, x, f'rounds to a fixed {x.args[1].value} digits'))
+            if isinstance(x, _ast.Call):
+                for kw in x.keywords:
+                    if kw.arg == 'precision' and isinstance(kw.value, _ast.Constant) and \
+                            isinstance(kw.value.value, (int, float)) and not isinstance(kw.value.value, bool):
+                        bad.append((f, x, f'passes the literal precision {kw.value.value}'))
+            if isinstance(x, _ast.FormattedValue) and x.format_spec is not None and not isinstance(x.value, _ast.Constant):
+                bad.append((f, x, 'formats a computed value with a format spec'))
+    for f, x, why in bad:
+        check(rep, 'TOK-value', f.fq, f'`{norm_stmt(x)[:70]}` keeps full precision', False, '',
+              f'`{norm_stmt(x)[:90]}` {why}: the digits cut here are missing when the value is compared with, summed '
+              f'into or parsed back as the unrounded quantity (only the caller\'s `precision` may round)', f.loc(x), clause)
+    if not bad:
+        rep.ob('TOK-value', f'no fixed-digit rounding, literal precision or format spec in '
+               f'{"the package" if modules is None else ", ".join(sorted(m.split(".")[-1] for m in modules))}', '', True,
+               f'{n} expressions scanned', True, clause)
+
+
+def self_accumulation_rule(ctx, rep: Report, clause: str, modules):
+    """`D[K] = D2.get(K2, default) + ...` is an accumulation into D[K]: it has to read the entry it writes (D2 is D and
+    K2 is K), otherwise counts gathered so far are overwritten or taken from another table"""
+    import ast as _ast
+    from ..loader import walk_own as _walk
+    program = ctx.program
+    n = 0
+    for f in program.all_functions():
+        if f.module.name not in modules:
+            continue
+        for x in _walk(f.node):
+            if not (isinstance(x, _ast.Assign) and len(x.targets) == 1 and isinstance(x.targets[0], _ast.Subscript)):
+                continue
+            d, k = norm_stmt(x.targets[0].value), norm_stmt(x.targets[0].slice)
+            gets = [c for c in _ast.walk(x.value) if isinstance(c, _ast.Call) and isinstance(c.func, _ast.Attribute) and
+                    c.func.attr == 'get' and len(c.args) == 2]
+            if not gets or not isinstance(x.value, _ast.BinOp):
+                continue
+            # the running total is the .get(...) that is a direct operand of the sum
+            ops = [x.value.left, x.value.right]
+            tot = [g for g in gets if any(g is o for o in ops)]
+            if not tot:
+                continue
+            n += 1
+            g = tot[0]
+            d2, k2 = norm_stmt(g.func.value), norm_stmt(g.args[0])
+            check(rep, 'ACC-self', f.fq, f'`{d}[...] = {d2}.get(...) + ...` reads the entry it writes', (d, k) == (d2, k2),
+                  'same table, same key',
+                  f'`{norm_stmt(x)[:100]}` stores into {d}[{k}] the sum built on {d2}[{k2}]: the count accumulated so '
+                  f'far under {k} is replaced by a value taken from another entry', f.loc(x), clause)
+    rep.floor('ACC-self', 'get-and-add accumulations', n, 3)
